@@ -36,7 +36,8 @@ func init() {
 		Run:         runC16,
 		Floors: func(tier string) map[string]int {
 			return map[string]int{"imports": 200, "valid_imports_roundtrip": 80, "failing_imports_unchanged": 60, "exports_after_commits": 80, "replica_matches_import": 40,
-				"target_absent": 10, "target_populated": 20, "target_dropped": 5, "target_pending_wal": 5, "different_page_size": 10, "via_http": 40, "reopen_after_failed_import": 30}
+				"target_absent": 10, "target_populated": 20, "target_dropped": 5, "target_pending_wal": 5, "different_page_size": 10, "via_http": 40, "reopen_after_failed_import": 30,
+				"fault_injected": 30, "fault_import_refused_unchanged": 20, "fault_node_stopped": 1}
 		},
 	})
 }
